@@ -1,0 +1,13 @@
+//go:build verif
+
+package bip32
+
+// Hooks for the external verification harness.  This file only exists for the
+// compiler under the build tag "verif" and changes no behaviour of the package.
+
+// VerifSlices returns the five internal byte slices of an extended key exactly
+// as they are stored (no copy), so that the harness can observe which keys
+// share backing arrays.
+func VerifSlices(k *ExtendedKey) (key, pubKey, chainCode, parentFP, version []byte) {
+	return k.key, k.pubKey, k.chainCode, k.parentFP, k.version
+}
